@@ -1087,3 +1087,42 @@ def run_doctests_with_contracts(cid):
     rec['pytest_tail'] = p.stdout.decode(errors='replace').strip().splitlines()[-1:]
     rec['violations'] = [v for v in rec['violations'] if v['sig'].startswith(cid + '|')]
     return rec, None
+
+
+def synth_boundaries(name, rng, k=3):
+    """Valid numbers with runs of 9s / 0s after each possible leading digit (range boundaries such as ...099,
+    ...3999, ...69999 in hard-coded or registry range tables), check characters repaired through is_valid()."""
+    mod = get_module(name)
+    out = []
+    canon = []
+    for v in corpus(name, limit=k, rng=rng):
+        try:
+            c = mod.validate(v)
+        except Exception:  # noqa: B902
+            continue
+        if isinstance(c, str) and c and c not in canon:
+            canon.append(c)
+    for c in canon:
+        dpos = [i for i, ch in enumerate(c) if ch.isdigit()]
+        for start_i in range(0, max(0, len(dpos) - 2)):
+            for run in range(2, min(8, len(dpos) - start_i - 1)):
+                for lead in '0123456789':
+                    for fill in '90':
+                        s2 = list(c)
+                        s2[dpos[start_i]] = lead
+                        for j in range(1, run + 1):
+                            s2[dpos[start_i + j]] = fill
+                        cand = ''.join(s2)
+                        try:
+                            ok = mod.is_valid(cand) is True
+                        except Exception:  # noqa: B902
+                            ok = False
+                        if not ok:
+                            cand = _repair(mod, cand)
+                            if cand is None:
+                                continue
+                        if cand not in out and cand not in canon:
+                            out.append(cand)
+            if start_i >= 4:
+                break
+    return out
